@@ -422,6 +422,63 @@ def api_job(arg):
     return rep
 
 
+def pathlib_job(arg):
+    """Paths handed over as pathlib.Path objects whose text also names things that exist on the local disk (directories,
+    a symbolic link to a directory, a file): a dds path is a name inside the store, so what the local disk holds under
+    that name changes nothing - Path(x) and the text x are the same path, paths with different segments stay apart."""
+    import pathlib
+
+    kind = arg
+    import dds
+    from dds.structures import DDSException
+
+    rep = core.Report("C08")
+    dds.accept_module("checks")
+    with core.Scratch("vp_c08p_") as root:
+        store_root = os.path.join(root, "store")
+        os.makedirs(store_root)
+        if kind == "local":
+            dds.set_store("local", internal_dir=os.path.join(store_root, "internal"), data_dir=os.path.join(store_root, "data"))
+        else:
+            dds.set_store(SM.make_store(kind, store_root))
+        fs = os.path.join(os.path.realpath(root), "fsroot")
+        os.makedirs(os.path.join(fs, "mnt_disk", "sub"))
+        os.makedirs(os.path.join(fs, "real", "dir"))
+        os.symlink("mnt_disk", os.path.join(fs, "data"))
+        os.symlink(os.path.join(fs, "real"), os.path.join(fs, "abs_link"))
+        with open(os.path.join(fs, "real", "dir", "file.txt"), "w") as f:
+            f.write("x")
+        texts = [fs + "/data/report", fs + "/mnt_disk/report", fs + "/data/sub/r2", fs + "/mnt_disk/sub/r2", fs + "/abs_link/dir/r3", fs + "/real/dir/r3", fs + "/real/dir/file.txt/r4", fs + "/nowhere/r5"]
+        given = {}
+        for i, t in enumerate(texts):
+            # alternate which spelling keeps and which one loads
+            given[t] = (pathlib.Path(t), t) if i % 2 == 0 else (t, pathlib.Path(t))
+        kept = {}
+        for t, (kp, lp) in given.items():
+            rep.count("api_keeps")
+            try:
+                v = dds.keep(kp, api_fun, t)
+                kept[t] = v
+                if v != api_fun(t):
+                    rep.violate("keep(%r) returned %r" % (kp, v), {"kind": kind, "path": t}, mechanism="local-disk-dependent-path")
+            except BaseException as e:
+                rep.violate("dds.keep(%r, ...) on %s raised %s: %s" % (kp, kind, type(e).__name__, str(e)[:120]), {"kind": kind, "path": t}, mechanism="local-disk-dependent-path")
+        for t, v in kept.items():
+            for form in given[t]:
+                rep.count("api_loads")
+                try:
+                    r = dds.load(form)
+                except BaseException as e:
+                    r = "%s: %s" % (type(e).__name__, str(e)[:100])
+                if r != v:
+                    rep.violate("%s: load(%r) = %r after keep(%r) returned %r (the local disk holds a link / directory under part of that name)" % (kind, form, r, given[t][0], v),
+                                {"kind": kind, "path": t}, mechanism="local-disk-dependent-path")
+        rep.evaluations = 1
+        if len(kept) >= 2:
+            rep.nontriv(("pathlib", kind))
+    return rep
+
+
 def api_fun(tag):
     return "api-value:" + tag
 
@@ -479,17 +536,20 @@ def run(tier, seed):
         for ps in api_sets:
             jobs.append(("api", (kind, ps)))
 
+    for kind in SM.STORE_KINDS:
+        jobs.append(("pathlib", kind))
+
     def dispatch(j):
         t, a = j
-        return {"bulk": bulk_job, "seq": seq_job, "api": api_job}[t](a)
+        return {"bulk": bulk_job, "seq": seq_job, "api": api_job, "pathlib": pathlib_job}[t](a)
 
     results = core.fork_map(dispatch, jobs, timeout=900)
     for j, r in zip(jobs, results):
         if isinstance(r, core.JobFailed):
-            rep.inconclusive.append("job %s %s: %r" % (j[0], j[1][0], r))
+            rep.inconclusive.append("job %s %s: %r" % (j[0], j[1] if j[0] == "pathlib" else j[1][0], r))
             continue
         rep.merge(r)
-        rep.bump("jobs", j[0] + ":" + j[1][0])
+        rep.bump("jobs", j[0] + ":" + (j[1] if j[0] == "pathlib" else j[1][0]))
     rep.sample({"bulk_set_depth3_first": p3[:5], "mixed_example": mixed_sets[0][:6]})
     rep.sample({"op_sequence": gen_sequence(core.rng_for(seed, "sample"), 8, spaths)})
     rep.assumptions = [
